@@ -129,6 +129,28 @@ def m_index_range(I, st, t, args, site, depth):
     return [(st, ("bufslice", base, tform(off), tform(n)))]
 
 
+def m_get_uint(I, st, t, args, site, depth):
+    """Buf::get_uint(n) / get_int(n): an n-byte big-endian read (n must be a known constant)"""
+    w = args[1] if len(args) > 1 else None
+    if not isinstance(w, int):
+        return None
+    key = buf_key(I, st, args[0])
+    _oblige(I, st, t, site, t.callee.name, w, buf_len(st, key))
+    off = _consume(st, key, w)
+    res = ("bufread", key, tform(off), w)
+    st.events.append(Event("buf", t.callee.name, [key, off, w], site, t.span, tuple(I.ctx), res, extra={"op": "read", "buf": key, "offset": off, "width": w, "remaining_before": lin_add(buf_state(st, key)[1], off, -1)}))
+    return [(st, res)]
+
+
+def m_has_remaining(I, st, t, args, site, depth):
+    key = buf_key(I, st, args[0])
+    l = buf_len(st, key)
+    d = I.decide_cmp(st, "Ne", l, 0, "usize")
+    if d is not None:
+        return [(st, 1 if d else 0)]
+    return [(st, ("cmp", "Ne", tform(l), 0, "usize"))]
+
+
 def m_advance(I, st, t, args, site, depth):
     key = buf_key(I, st, args[0])
     n = args[1]
@@ -230,6 +252,17 @@ def m_put_slice(I, st, t, args, site, depth):
     key = buf_key(I, st, args[0])
     v = deref_arg(I, st, args[1])
     n = ("len", tform(v))
+    tv = tform(v)
+    while isinstance(tv, tuple) and tv and tv[0] in ("deref", "ref"):
+        tv = tv[1]
+    if isinstance(tv, tuple) and tv and tv[0] == "be_bytes":
+        # &x.to_be_bytes(): the big-endian image of x, as wide as its type = put_uN(x)
+        n, v = tv[2], tv[1]
+    elif isinstance(tv, tuple) and tv[:2] == ("agg", "array"):
+        # &[b0, b1, ..]: one byte each
+        n = len(tv) - 2
+        if n == 1:
+            v = tv[2]
     c, l0 = buf_state(st, key)
     st.events.append(Event("buf", t.callee.name, [key, v], site, t.span, tuple(I.ctx), None, extra={"op": "put", "buf": key, "width": n, "value": v, "at": l0}))
     _append(st, key, n)
@@ -257,6 +290,58 @@ for _n in GET_WIDTH:
 for _n in PUT_WIDTH:
     BUF_MODELS["bytes::BufMut::" + _n] = m_put
     BUF_MODELS["bytes::buf::BufMut::" + _n] = m_put
+def _strip_ref(v):
+    while isinstance(v, tuple) and v and v[0] in ("deref", "ref"):
+        v = v[1]
+    return v
+
+
+def _new_filled(I, st, t, site, parts, what):
+    """a fresh buffer holding the given byte sequences one after the other (put events in that order)"""
+    n = sum(1 for e in st.events if e.kind == "buf" and e.name == "new")
+    res = ("newbuf", site[0].split("::")[-1], n)
+    st.events.append(Event("buf", "new", [], site, t.span, tuple(I.ctx), res, extra={"op": "new", "capacity": 0}))
+    st.bufs[res] = (0, 0)
+    for v in parts:
+        c, l0 = buf_state(st, res)
+        w = ("len", tform(v))
+        st.events.append(Event("buf", what, [res, v], site, t.span, tuple(I.ctx), None, extra={"op": "put", "buf": res, "width": w, "value": v, "at": l0}))
+        _append(st, res, w)
+    return res
+
+
+def m_concat(I, st, t, args, site, depth):
+    """[a, b, ..].concat(): the byte sequences one after the other"""
+    v = _strip_ref(tform(deref_arg(I, st, args[0]))) if args else None
+    if not (isinstance(v, tuple) and v[:2] == ("agg", "array") and len(v) > 2):
+        return None
+    parts = [_strip_ref(x) for x in v[2:]]
+    return [(st, _new_filled(I, st, t, site, parts, "concat"))]
+
+
+def _iter_parts(term):
+    """byte sequences of a.iter().chain(b.iter()).copied() style iterator terms, in order; None when not of that shape"""
+    term = _strip_ref(term)
+    if not (isinstance(term, tuple) and term and term[0] == "call"):
+        return None
+    nm = term[1].split("::")[-1]
+    if nm in ("copied", "cloned", "into_iter") and len(term[3]) == 1:
+        return _iter_parts(term[3][0])
+    if nm == "chain" and len(term[3]) == 2:
+        a, b = _iter_parts(term[3][0]), _iter_parts(term[3][1])
+        return a + b if a is not None and b is not None else None
+    if nm == "iter" and len(term[3]) == 1:
+        return [_strip_ref(term[3][0])]
+    return None
+
+
+def m_from_iter(I, st, t, args, site, depth):
+    parts = _iter_parts(tform(args[0])) if args else None
+    if not parts:
+        return None
+    return [(st, _new_filled(I, st, t, site, parts, "from_iter"))]
+
+
 def m_bytes_from(I, st, t, args, site, depth):
     v = tform(deref_arg(I, st, args[0]))
     if isinstance(v, tuple) and v and v[0] in ("newbuf", "bufslice", "buftail"):
@@ -277,7 +362,19 @@ BUF_MODELS.update(
         "<bytes::Bytes as std::convert::From<bytes::BytesMut>>::from": m_bytes_from,
         "std::ops::Index::index": m_index_range,
         "std::ops::IndexMut::index_mut": m_index_range,
+        "std::slice::Concat::concat": m_concat,
+        "alloc::slice::Concat::concat": m_concat,
+        "std::slice::concat": m_concat,
+        "alloc::slice::concat": m_concat,
+        "std::iter::FromIterator::from_iter": m_from_iter,
         "bytes::BytesMut::split_to": m_split_to,
+        "bytes::Buf::copy_to_bytes": m_split_to,
+        "bytes::buf::Buf::copy_to_bytes": m_split_to,
+        "bytes::BytesMut::copy_to_bytes": m_split_to,
+        "bytes::Buf::get_uint": m_get_uint,
+        "bytes::buf::Buf::get_uint": m_get_uint,
+        "bytes::Buf::has_remaining": m_has_remaining,
+        "bytes::buf::Buf::has_remaining": m_has_remaining,
         "bytes::Buf::advance": m_advance,
         "bytes::buf::Buf::advance": m_advance,
         "bytes::BytesMut::len": m_len,
